@@ -50,6 +50,12 @@ def configurations(rng, tier):
         for nq in (0, 1, 2):
             yield "unencodable-request", Cfg(service="unencodable", path=path, retries=0, c_max=206, s_max=206,
                                              extra=[(rng.choice(behs[:4]), "cpt", 5, 5) for _ in range(nq)])
+    # 1b+. a requesting device whose own limits cannot be stated in a request header (it accepts one segment: the header has no
+    #      code for that): every request fails on its way out, after the transaction has been set up
+    for path in ("direct", "iocb"):
+        for nq in (0, 1):
+            yield "requester-limits-cannot-be-encoded", Cfg(c_maxsegs=1, path=path, retries=rng.choice([0, 1, 3]), c_max=206, s_max=206,
+                                                            extra=[("ack", "cpt", 5, 5)] * nq)
     # 1b". the requesting device itself has been told to be quiet (DeviceCommunicationControl): what its application submits
     #      meanwhile cannot go out - and still ends with one outcome
     for path in ("direct", "iocb"):
